@@ -6,6 +6,8 @@ chokan_verif hooks; Lean model through the driver) answer, for the four contexts
 """
 import json
 
+import os
+
 import checklib as cl
 from props import common
 
@@ -48,6 +50,16 @@ class Case:
             L.append("kfreq %s %s | %d" % (ctx, cl.cps(s), c))
         if self.freq:
             L += q
+            # history: the table written and read back (a restart) must answer as before; then every count is raised by one
+            # *between* two searches and the next search is in the context searched last
+            L.append("kfreqrt")
+            L += q
+            for ctx, s, c in self.freq:
+                L.append("kfreq %s %s | %d" % (ctx, cl.cps(s), c + 1))
+            for ctx in reversed(CTXS):
+                L += ["klattice %s %s" % (ctx, cl.cps(self.inp)), "kedges %s %s" % (ctx, cl.cps(self.inp)),
+                      "kcands %s %d %s" % (ctx, self.n, cl.cps(self.inp)), "kcands %s %d %s" % (ctx, ALLN, cl.cps(self.inp)),
+                      "kcands %s %d %s" % (ctx, self.n, cl.cps(self.inp))]
         return L
 
     def describe(self):
@@ -105,9 +117,48 @@ def gen_voiced_family(rng):
     return Case(words, [], inp[:12], rng.pick([3, 5]))
 
 
+def gen_homograph_tail_family(rng):
+    """A head word followed by two or three ancillary positions, each offering homographs (same reading and written form, different
+    parts of speech — or a kana particle next to the input's own kana) plus one word written differently: many tilings spell the
+    same text, and with a small n the list must still reach the next *distinct* text."""
+    ks = rng.sample(list("かきくけこさしすせそたちつてとなにぬねの"), 6)
+    head_rd = ks[0] + ks[1] + (ks[2] if rng.chance(1, 2) else "")
+    words = [("std", head_rd, rng.pick(KANJI), rng.pick(["N.common", "N.common", "N.sahen", "N.proper"]))]
+    if rng.chance(1, 2):
+        words.append(("std", head_rd[:2], rng.pick(KANJI) + "る", "V.hen.12459"))
+    tail = ""
+    for pos in range(2 + rng.below(2)):
+        rd = ks[3 + pos]
+        sps = rng.sample(["P.case", "P.adverbial", "P.conjunctive", "P.sentenceFinal", "P.other", "AUX"], 2 + rng.below(2))
+        for sp in sps:
+            words.append(("anc", rd, rd, sp))                    # kana particle homographs
+        if rng.chance(3, 4):
+            words.append(("anc", rd, rng.pick(KANJI), rng.pick(["AFX.suffix", "P.case", "CNT", "P.other"])))
+        tail += rd * (1 + (rng.below(3) if pos else 0))
+    return Case(words, [], (head_rd + tail)[:12], rng.pick([1, 2, 2, 3, 3, 4]))
+
+
+def long_run_sweep():
+    """One long word of every length 1..66 followed by text the dictionary does not know (with and without a particle in
+    between): the converted run ends at every position of a long input."""
+    out = []
+    pat = "かきくけこさしすせそたちつてと"
+    for ln in range(1, 67):
+        rd = "".join(pat[i % len(pat)] for i in range(ln))
+        for with_particle in (False, True):
+            words = [("std", rd, "甲", "N.common"), ("anc", "で", "で", "P.case")]
+            inp = rd + ("で" if with_particle else "") + "ぬぬね"
+            out.append(Case(words, [], inp, 2))
+    return out
+
+
 def gen_case(rng):
+    if os.environ.get("CHOKAN_ONLY_FAMILY") == "homograph":
+        return gen_homograph_tail_family(rng)
     if rng.chance(1, 8):
         return gen_prefix_family(rng)
+    if rng.chance(1, 6):
+        return gen_homograph_tail_family(rng)
     if rng.chance(1, 14):
         return gen_voiced_family(rng)
     k = 2 + rng.below(4)
@@ -200,6 +251,17 @@ CORPUS = [
 ]
 
 
+CORPUS += [
+    # many tilings of one text (homograph particles) before the next distinct text (round 10)
+    Case([("std", "くるま", "車", "N.common"), ("std", "くる", "来る", "V.hen.12459"), ("anc", "まで", "まで", "P.adverbial"),
+          ("anc", "で", "で", "P.case"), ("anc", "で", "出", "AFX.suffix"), ("anc", "か", "か", "P.adverbial"),
+          ("anc", "か", "か", "P.sentenceFinal"), ("anc", "か", "化", "AFX.suffix")], [], "くるまでか", 2),
+    Case([("std", "くるま", "車", "N.common"), ("std", "くる", "来る", "V.hen.12459"), ("anc", "まで", "まで", "P.adverbial"),
+          ("anc", "で", "で", "P.case"), ("anc", "で", "出", "AFX.suffix"), ("anc", "か", "か", "P.adverbial"),
+          ("anc", "か", "か", "P.sentenceFinal"), ("anc", "か", "化", "AFX.suffix")], [], "くるまでかか", 3),
+] + long_run_sweep()
+
+
 def parse_node(tok):
     if tok in ("bos", "eos"):
         return {"kind": tok, "id": tok}
@@ -266,6 +328,21 @@ class Result:
                               "all": parse_cands(r[3]), "again": parse_cands(r[4]), "raw": r}
         if not case.freq:
             self.learned = None
+        self.restored = None
+        self.bumped = None
+
+    def add_history(self, restored, bumped):
+        def parse(replies, order):
+            store = {}
+            i = 0
+            for ctx in order:
+                r = replies[i:i + 5]
+                i += 5
+                store[ctx] = {"lattice": parse_lattice(r[0]), "edges": parse_edges(r[1]), "cands": parse_cands(r[2]),
+                              "all": parse_cands(r[3]), "again": parse_cands(r[4]), "raw": r}
+            return store
+        self.restored = parse(restored, CTXS)
+        self.bumped = parse(bumped, list(reversed(CTXS)))
 
 
 def all_paths(edges, cap=20000):
@@ -292,7 +369,8 @@ def all_paths(edges, cap=20000):
 def run_cases(run, ncases_quick=700, ncases_thorough=20000):
     rng = cl.Rng(run.seed)
     n = ncases_thorough if run.tier == "thorough" else ncases_quick
-    cases = list(CORPUS) + [gen_case(rng) for _ in range(n)]
+    # CHOKAN_NO_CORPUS=1 measures what the generator finds on its own (used when a seeded change is evaluated)
+    cases = ([] if os.environ.get("CHOKAN_NO_CORPUS") else list(CORPUS)) + [gen_case(rng) for _ in range(n)]
     lines = []
     spans = []
     for c in cases:
@@ -317,8 +395,52 @@ def run_cases(run, ncases_quick=700, ncases_thorough=20000):
         reps = impl[start + nsetup:start + nsetup + nq]
         if nf:
             reps = reps + impl[start + nsetup + nq + nf:start + nsetup + nq + nf + nq]
-        results.append(Result(c, reps))
+        res = Result(c, reps)
+        if nf:
+            o3 = start + nsetup + nq + nf + nq          # the "kfreqrt" line
+            rt = impl[o3]
+            res.roundtrip_reply = rt
+            res.add_history(impl[o3 + 1:o3 + 1 + nq], impl[o3 + 1 + nq + nf:o3 + 1 + nq + nf + nq])
+        results.append(res)
     return results, dis, cases
+
+
+def history_oracles(r, fails, stats):
+    """Learned counts behave as a plain table under any history: written and read back they answer as before; a count raised
+    between two searches in one context is seen by the second search, in its own context only."""
+    c = r.case
+    if r.learned is None or r.restored is None:
+        return
+    stats["history_cases"] = stats.get("history_cases", 0) + 1
+    if r.roundtrip_reply != "ok":
+        fails.append(("counts-roundtrip", {"kind": "counts-roundtrip"}, dict(c.describe(), reply=r.roundtrip_reply)))
+        return
+    for ctx in CTXS:
+        a, b = r.learned[ctx], r.restored[ctx]
+        if a["raw"] != b["raw"]:
+            fails.append(("restored-counts-differ", {"kind": "restored-counts-differ"},
+                          dict(c.describe(), context=ctx, history="counts set; search; counts serialised and read back; search",
+                               before=[cd["text"] for cd in a["cands"] or []], after=[cd["text"] for cd in b["cands"] or []],
+                               scores_before=[cd.get("score") for cd in a["cands"] or []],
+                               scores_after=[cd.get("score") for cd in b["cands"] or []])))
+            break
+    counts = {(ctx, s): k + 1 for ctx, s, k in c.freq}
+    for ctx in CTXS:
+        b, l = r.base[ctx], r.bumped[ctx]
+        if b["edges"] is None or l["edges"] is None:
+            continue
+        surf = surface_of(b["lattice"])
+        kinds = {n["id"]: n["kind"] for p in b["lattice"] or [] for n in p}
+        eb = {(p, n): (e, ns) for p, n, e, ns in b["edges"] or []}
+        for p, n, e, ns in l["edges"] or []:
+            e0, ns0 = eb.get((p, n), (None, None))
+            bonus = counts.get((ctx, surf.get(n, "")), 0) if kinds.get(n) == "word" else 0
+            if e0 != e or ns0 is None or ns != ns0 + bonus:
+                fails.append(("count-after-search", {"kind": "count-after-search"},
+                              dict(c.describe(), context=ctx, node=n, surface=surf.get(n, ""),
+                                   history="search in every context (this one last); every learned count raised by one; search in this context",
+                                   score_without_counts=[e0, ns0], score_now=[e, ns], expected_rise=bonus)))
+                return
 
 
 def surface_of(lattice):
@@ -369,13 +491,18 @@ def coverage(run, results, cases, rule_extra=""):
             nontriv += 1
         seen.add(key)
     run.cov.update({
-        "evaluations": len(cases) * (20),
+        # queries answered by both sides: 20 per case, and 60 more (learned / restored / raised-between-searches) when counts are learned
+        "evaluations": sum(20 + (60 if c.freq else 0) for c in cases),
         "distinct_nontrivial": nontriv,
         "rule": "case = random dictionary (0–12 words over 2–5 kana, every speech category in both dictionaries, homophones, "
                 "duplicate surfaces, words present in the map but not in the trie) + learned counts + input of 1–12 characters "
                 "(mostly concatenations of dictionary readings, also characters outside the alphabet); 4 contexts x "
                 "(lattice, edges, n-best, untruncated, repeat). non-trivial = at least 2 candidates and a position with at "
-                "least 2 nodes in normal context; distinct by (dictionary, counts, input, n). " + rule_extra,
+                "least 2 nodes in normal context; distinct by (dictionary, counts, input, n). Directed families: head prefixes, voiced "
+                "spellings, homograph tails (many tilings of one text, small n); a fixed corpus of past failures and a sweep of "
+                "converted-run lengths 1..66 on inputs of up to 70 characters; with learned counts the four contexts are queried "
+                "again after the table was serialised and read back, and after every count was raised between two searches. "
+                + rule_extra,
         "samples": [c.describe() for c in cases[len(CORPUS):len(CORPUS) + 2]] + [cases[0].describe()],
         "histogram": hist,
     })
